@@ -7,7 +7,7 @@
    Part C: spec lemmas: checker = true  ->  the mathematical statement, over Z / Z1 / Z2 / Z3. *)
 From Coq Require Import ZArith List Bool Lia.
 From Bignums Require Import BigZ.
-From V Require Import Base.Field C16.ConfigChecks.
+From V Require Import Base.Field C13.Poly C16.ConfigChecks.
 Import ListNotations.
 Open Scope Z_scope.
 
@@ -243,6 +243,18 @@ Section Transfer.
   Proof.
     intros. unfold pow_isnt. do 2 f_equal. apply (r_eqb _ _ _ H); [apply fpow_rel|]; apply el_rel.
   Qed.
+  Lemma nonzero_ok_tr : forall a, nonzero_ok F a = nonzero_ok G a.
+  Proof. intros. unfold nonzero_ok. f_equal. apply (r_eqb _ _ _ H); rel H; apply el_rel. Qed.
+  Lemma mul_pow_is_tr : forall a b e c, mul_pow_is F a b e c = mul_pow_is G a b e c.
+  Proof.
+    intros. unfold mul_pow_is. f_equal. apply (r_eqb _ _ _ H); [|apply el_rel].
+    apply (r_mul _ _ _ H); [apply el_rel | apply fpow_rel; apply el_rel].
+  Qed.
+  Lemma swu_exceptional_ok_tr : forall q a b z, swu_exceptional_ok F q a b z = swu_exceptional_ok G q a b z.
+  Proof.
+    intros. unfold swu_exceptional_ok. f_equal. apply (r_eqb _ _ _ H); [|apply (r_1 _ _ _ H)].
+    apply fpow_rel. rel H; apply el_rel.
+  Qed.
   Lemma tower_sq_tr : forall a, tower_sq F a = tower_sq G a.
   Proof. intros. unfold tower_sq. apply (r_coords _ _ _ H). rel H; apply el_rel. Qed.
   Lemma tower_cube_tr : forall a, tower_cube F a = tower_cube G a.
@@ -305,6 +317,78 @@ Section Transfer.
     intros. unfold glv_endo_ok. f_equal. apply pt_eqb_rel.
     - apply sw_mul_rel; [apply el_rel|]. cbn [Rpt]. split; apply el_rel.
     - cbn [Rpt]. split; rel H; apply el_rel.
+  Qed.
+
+  (* polynomials as coefficient lists (C13/Poly.v) *)
+  Local Notation RL := (Forall2 R).
+  Lemma els_rel : forall l, RL (els F l) (els G l).
+  Proof. induction l as [| a l IH]; cbn [els map]; constructor; [apply el_rel | exact IH]. Qed.
+  Lemma padd_rel : forall p p' q q', RL p p' -> RL q q' -> RL (padd (fadd F) p q) (padd (fadd G) p' q').
+  Proof.
+    intros p p' q q' Hp. revert q q'. induction Hp as [| a a' p p' Ha Hp IH]; intros q q' Hq.
+    - destruct Hq; cbn [padd]; [constructor | constructor; assumption].
+    - destruct Hq as [| b b' q q' Hb Hq]; cbn [padd].
+      + constructor; assumption.
+      + constructor; [rel H | apply IH; assumption].
+  Qed.
+  Lemma pscale_rel : forall c c' p p', R c c' -> RL p p' -> RL (pscale (fmul F) c p) (pscale (fmul G) c' p').
+  Proof.
+    intros c c' p p' Hc Hp. unfold pscale. induction Hp as [| a a' p p' Ha Hp IH]; cbn [map]; constructor;
+      [rel H | exact IH].
+  Qed.
+  Lemma pmul_rel : forall p p' q q', RL p p' -> RL q q' ->
+    RL (pmul (f0 F) (fadd F) (fmul F) p q) (pmul (f0 G) (fadd G) (fmul G) p' q').
+  Proof.
+    intros p p' q q' Hp Hq. induction Hp as [| a a' p p' Ha Hp IH]; cbn [pmul]; [constructor|].
+    apply padd_rel; [apply pscale_rel; assumption|]. constructor; [apply (r_0 _ _ _ H) | exact IH].
+  Qed.
+  Lemma pzero_tr : forall p p', RL p p' -> pzero (f0 F) (feqb F) p = pzero (f0 G) (feqb G) p'.
+  Proof.
+    intros p p' Hp. induction Hp as [| a a' p p' Ha Hp IH]; cbn [pzero]; [reflexivity|].
+    rewrite IH. f_equal. apply (r_eqb _ _ _ H); rel H.
+  Qed.
+  Lemma peqb_tr : forall p p' q q', RL p p' -> RL q q' ->
+    peqb (f0 F) (feqb F) p q = peqb (f0 G) (feqb G) p' q'.
+  Proof.
+    intros p p' q q' Hp. revert q q'. induction Hp as [| a a' p p' Ha Hp IH]; intros q q' Hq.
+    - destruct Hq as [| b b' q q' Hb Hq]; cbn [peqb]; [reflexivity|].
+      apply (pzero_tr (b :: q) (b' :: q')). constructor; assumption.
+    - destruct Hq as [| b b' q q' Hb Hq]; cbn [peqb].
+      + apply (pzero_tr (a :: p) (a' :: p')). constructor; assumption.
+      + rewrite (IH q q' Hq). f_equal. apply (r_eqb _ _ _ H); assumption.
+  Qed.
+  Lemma iso_identity_tr : forall a' b' A B xn xd yn yd,
+    iso_identity (f0 F) (f1 F) (fadd F) (fmul F) (feqb F) (el F a') (el F b') (el F A) (el F B)
+                 (els F xn) (els F xd) (els F yn) (els F yd) =
+    iso_identity (f0 G) (f1 G) (fadd G) (fmul G) (feqb G) (el G a') (el G b') (el G A) (el G B)
+                 (els G xn) (els G xd) (els G yn) (els G yd).
+  Proof.
+    intros. unfold iso_identity, iso_lhs, iso_rhs.
+    apply peqb_tr;
+      repeat (first [ apply pmul_rel | apply padd_rel | apply pscale_rel | apply els_rel | apply el_rel
+                    | apply Forall2_cons | apply Forall2_nil | apply (r_0 _ _ _ H) | apply (r_1 _ _ _ H) ]).
+  Qed.
+  Lemma wb_iso_ok_tr : forall a' b' A B xn xd yn yd,
+    wb_iso_ok F a' b' A B xn xd yn yd = wb_iso_ok G a' b' A B xn xd yn yd.
+  Proof.
+    intros. unfold wb_iso_ok.
+    rewrite (pzero_tr _ _ (els_rel xd)), (pzero_tr _ _ (els_rel yd)), (pzero_tr _ _ (els_rel yn)), iso_identity_tr.
+    reflexivity.
+  Qed.
+
+  Lemma sw_te_ok_tr : forall a d x y mA mB sa sb X Y,
+    sw_te_ok F a d x y mA mB sa sb X Y = sw_te_ok G a d x y mA mB sa sb X Y.
+  Proof.
+    intros. unfold sw_te_ok.
+    repeat match goal with
+           | |- andb _ _ = andb _ _ => f_equal
+           | |- negb _ = negb _ => f_equal
+           | |- feqb F _ _ = feqb G _ _ => apply (r_eqb _ _ _ H); rel H; apply el_rel
+           end.
+    match goal with
+    | |- (if ?c then _ else _) = (if ?c' then _ else _) =>
+        replace c with c' by (symmetry; apply (r_eqb _ _ _ H); rel H; apply el_rel); destruct c'
+    end; apply (r_eqb _ _ _ H); rel H; apply el_rel.
   Qed.
 
   Definition Rpr (P : T * T) (Q : U * U) : Prop := R (fst P) (fst Q) /\ R (snd P) (snd Q).
@@ -493,6 +577,32 @@ Proof. intros p r w1 w0 H. unfold mnt4_final_exp_ok in H. zify_b. assumption. Qe
 Theorem mnt6_final_exp_spec : forall p r w1 w0, mnt6_final_exp_ok p r w1 w0 = true ->
   (w1 * p + w0) * r = p * p - p + 1.
 Proof. intros p r w1 w0 H. unfold mnt6_final_exp_ok in H. zify_b. assumption. Qed.
+Theorem sqrt_precomp_spec : forall p g kind v, sqrt_precomp_ok p g kind v = true ->
+  (p mod 4 = 3 /\ kind = 2 /\ v = [(p + 1) / 4]) \/
+  (p mod 4 <> 3 /\ kind = 1 /\ exists s q tm, v = [s; q; tm] /\ 2 < p /\ 0 < s /\ 0 <= tm /\
+     p - 1 = 2 ^ s * (2 * tm + 1) /\ q = g ^ (2 * tm + 1) mod p /\ q ^ (2 ^ (s - 1)) mod p = p - 1).
+Proof.
+  intros p g kind v H. unfold sqrt_precomp_ok in H.
+  destruct (Z.eqb_spec (p mod 4) 3) as [E | E].
+  - left. andb_split H. destruct v as [| m [| ? ?]]; try discriminate. zify_b. subst. repeat split; assumption.
+  - right. andb_split H. destruct v as [| s [| q [| tm [| ? ?]]]]; try discriminate.
+    andb_split Hc. zify_b.
+    rewrite fast_pow_mod_spec in Hc1 by lia.
+    rewrite fast_pow_mod_spec in Hc0 by (try apply Z.pow_nonneg; lia).
+    split; [assumption|]. split; [assumption|]. exists s, q, tm. repeat split; assumption.
+Qed.
+
+Theorem bw6_curve_spec : forall x p r ht hy t0 h1 h2, bw6_curve_ok x p r ht hy t0 h1 h2 = true ->
+  let t := bw6_t x r ht t0 in let y3 := bw6_y3 x r hy t0 in
+  12 * p = 3 * t ^ 2 + y3 ^ 2 /\ t = p + 1 - h1 * r /\ (2 * (p + 1 - h2 * r) - t) ^ 2 = y3 ^ 2.
+Proof.
+  intros x p r ht hy t0 h1 h2 H t y3. unfold bw6_curve_ok in H. fold t y3 in H. andb_split H. zify_b.
+  repeat split; assumption.
+Qed.
+
+Theorem ate_loop_mod_spec : forall l p r, ate_loop_mod_ok l p r = true -> 0 < l /\ 0 < r /\ (l - p) mod r = 0.
+Proof. intros l p r H. unfold ate_loop_mod_ok in H. andb_split H. zify_b. repeat split; assumption. Qed.
+
 Theorem naf_ok_spec : forall l, naf_ok l = true -> Forall (fun d => -1 <= d <= 1) l.
 Proof.
   intros l H. unfold naf_ok in H. apply Forall_forall. intros d Hd. rewrite forallb_forall in H.
@@ -521,6 +631,63 @@ Section FieldSpecs.
   Proof.
     destruct SF as [[R H] E]. intros a e c Hb. rewrite (pow_isnt_tr R B G H) in Hb. unfold pow_isnt in Hb.
     andb_split Hb. zify_b. split; [assumption|]. intros Heq. apply E in Heq. rewrite Heq in Hc. discriminate.
+  Qed.
+
+  Theorem nonzero_ok_spec : forall a, nonzero_ok B a = true -> el G a <> f0 G.
+  Proof.
+    destruct SF as [[R H] E]. intros a Hb. rewrite (nonzero_ok_tr R B G H) in Hb. unfold nonzero_ok in Hb.
+    zify_b. intros Heq. apply E in Heq. rewrite Heq in Hb. discriminate.
+  Qed.
+  Theorem mul_pow_is_spec : forall a b e c, mul_pow_is B a b e c = true ->
+    0 <= e /\ fmul G (el G a) (fpow G (el G b) e) = el G c.
+  Proof.
+    destruct SF as [[R H] E]. intros a b e c Hb. rewrite (mul_pow_is_tr R B G H) in Hb. unfold mul_pow_is in Hb.
+    andb_split Hb. zify_b. split; [assumption | apply E; assumption].
+  Qed.
+  Theorem swu_exceptional_ok_spec : forall q a b z, swu_exceptional_ok B q a b z = true ->
+    let x := fmul G (el G b) (finv G (fmul G (el G z) (el G a))) in
+    Z.odd q = true /\
+    fpow G (fadd G (fadd G (fmul G (fmul G x x) x) (fmul G (el G a) x)) (el G b)) ((q - 1) / 2) = f1 G.
+  Proof.
+    destruct SF as [[R H] E]. intros q a b z Hb. rewrite (swu_exceptional_ok_tr R B G H) in Hb.
+    unfold swu_exceptional_ok in Hb. cbv zeta. andb_split Hb. split; [assumption | apply E; assumption].
+  Qed.
+  (* the shipped coefficient lists satisfy the isogeny identity over the specification field
+     (C13/IsoProofs.v turns [iso_identity ... = true] into "points of E' go to points of E") *)
+  Theorem wb_iso_ok_spec : forall a' b' A Bc xn xd yn yd, wb_iso_ok B a' b' A Bc xn xd yn yd = true ->
+    pzero (f0 G) (feqb G) (els G xd) = false /\ pzero (f0 G) (feqb G) (els G yd) = false /\
+    pzero (f0 G) (feqb G) (els G yn) = false /\
+    iso_identity (f0 G) (f1 G) (fadd G) (fmul G) (feqb G) (el G a') (el G b') (el G A) (el G Bc)
+                 (els G xn) (els G xd) (els G yn) (els G yd) = true.
+  Proof.
+    destruct SF as [[R H] E]. intros a' b' A Bc xn xd yn yd Hb. rewrite (wb_iso_ok_tr R B G H) in Hb.
+    unfold wb_iso_ok in Hb. andb_split Hb. zify_b. repeat split; assumption.
+  Qed.
+  Theorem sw_te_ok_spec : forall a d x y mA mB sa sb X Y, sw_te_ok B a d x y mA mB sa sb X Y = true ->
+    let two := fadd G (f1 G) (f1 G) in let three := fadd G two (f1 G) in let four := fadd G two two in
+    let nine := fmul G three three in
+    let Am := el G mA in let Bm := el G mB in
+    let u3 := fsub G (fmul G three (fmul G Bm (el G X))) Am in
+    let v3 := fmul G three (fmul G (el G x) (fmul G Bm (el G Y))) in
+    let k := fmul G Bm (fsub G (el G a) (el G d)) in
+    three <> f0 G /\ Bm <> f0 G /\
+    fmul G (fmul G three (fmul G Bm Bm)) (el G sa) = fsub G three (fmul G Am Am) /\
+    fmul G (fmul G (fmul G nine three) (fmul G (fmul G Bm Bm) Bm)) (el G sb) =
+      fsub G (fmul G two (fmul G (fmul G Am Am) Am)) (fmul G nine Am) /\
+    el G y <> f1 G /\
+    fmul G u3 (fsub G (f1 G) (el G y)) = fmul G three (fadd G (f1 G) (el G y)) /\
+    ((k = four /\ v3 = u3) \/ fmul G (fmul G v3 v3) k = fmul G four (fmul G u3 u3)).
+  Proof.
+    destruct SF as [[R H] E]. intros a d x y mA mB sa sb X Y Hb. rewrite (sw_te_ok_tr R B G H) in Hb.
+    unfold sw_te_ok in Hb. cbv zeta. andb_split Hb. zify_b.
+    assert (NE : forall u w, feqb G u w = false -> u <> w).
+    { intros u w Hf Heq. apply E in Heq. rewrite Heq in Hf. discriminate. }
+    repeat split; try (apply E; assumption); try (apply NE; assumption).
+    match type of Hc with
+    | (if ?c then _ else _) = true => destruct c eqn:Ek
+    end.
+    - left. split; apply E; assumption.
+    - right. apply E; assumption.
   Qed.
 
   Lemma frob_from_spec : forall tbl beta p k m j, 0 <= p ->
